@@ -14,7 +14,9 @@ husky's header validation is a parameter too (`Env.huskyOK`); the theorems that 
 re-establishes on the linked husky version.
 
 Every endpoint is modelled as the *sequence of calls the code makes*, so the order of
-"accept" and "replace" is the code's, not the documentation's.
+"accept" and "replace" is the code's, not the documentation's.  (Until the fix recorded in
+`known_findings.jsonl` the gRPC trace endpoint replaced first and accepted on the replaced key;
+`corpus/C24/grpc-traces-replace-then-accept.ops` keeps the former witnesses as regressions.)
 -/
 namespace Refinery.Model.Auth
 
@@ -136,16 +138,19 @@ def handleOTLPHTTP (logs500 : Bool) (c : Cfg) (env : Env) (k : String) : Result 
     else if !env.huskyOK keyToUse then (if logs500 then .failed else .rejected .nohdr)
     else .sent keyToUse
 
-/-- `customTraceExportHandler` then `ExportTraceData`: **replace first**, then (after unmarshalling,
-where husky validates the replaced key) look up the key ID of the *replaced* key and run
-`IsAccepted` on the *replaced* key. -/
+/-- `customTraceExportHandler` then `ExportTraceData` (as repaired): accept on the client's key,
+then replace; after unmarshalling (where husky validates the replaced key) `ExportTraceData` looks up
+the key ID of the *replaced* key and runs `IsAccepted` once more on the *replaced* key (redundant:
+`Props.C24.grpcTraces_second_check_redundant`). -/
 def handleTracesGRPC (c : Cfg) (env : Env) (k : String) : Result :=
-  match getReplaceKey c k (keyIDOf c env k) with
-  | none => .rejected .blank
-  | some r =>
-    if !env.huskyOK r then .rejected .nohdr
-    else if !isAccepted c r (keyIDOf c env r) then .rejected .unlisted
-    else .sent r
+  let kid := keyIDOf c env k
+  if !isAccepted c k kid then .rejected .unlisted
+  else match getReplaceKey c k kid with
+    | none => .rejected .blank
+    | some r =>
+      if !env.huskyOK r then .rejected .nohdr
+      else if !isAccepted c r (keyIDOf c env r) then .rejected .unlisted
+      else .sent r
 
 /-- `LogsServer.Export`: accept on the client's key; `keyToUse, _ := GetReplaceKey`; a missing key
 header is tolerated by the handler's own validation whatever `keyToUse` is; `TranslateLogsRequest`
